@@ -617,7 +617,7 @@ def unsubscribe_inside_callback(ctx: Ctx) -> None:
                     n_other = len(other)
                     send_stream(sim, dconn, [mk(4), pb.SensorStateResponse(key=4, state=4.0)], [2] if same_chunk else [1, 1])
                     sim.run_for(0.01)
-                    if second_error is not None or len(got) != 1 or (second_subscriber and len(other) != n_other + 1) or states[-1].key != 4:
+                    if second_error is not None or len(got) != 1 or (second_subscriber and len(other) != n_other + 1) or not states or states[-1].key != 4:
                         res.violation("C17/unsubscribe/called-twice", f"second call of the {which} unsubscribe function: raised {second_error!r}; one-shot calls {len(got)}, "
                                       f"other subscriber +{len(other) - n_other} of 1, last state key {states[-1].key if states else None}", case, trace=sim.trace(30))
                     states = states[:3]
